@@ -146,6 +146,24 @@ CHECKS = {
         engine='rx2z3'),
 }
 
+CHECKS['C07'] = dict(
+    text='The real handle_comments with the real Reactor and the live registry (commands.setup) on comment lists whose authors '
+         '(author / admin / other / robot, author optionally an admin) and texts are solver-chosen from a text set generated from '
+         'the live registry (every option and command, unknown word, three syntaxes, =arg, separator pairs, unaddressed text, '
+         'whitespace). Outcome (exception class and keyword, or the resulting option values) is compared with the statement.',
+    note='Partial: the text grammar as a symbolic string is not decided (re.sub/split pipelines are out of reach of z3/CrossHair '
+         'here); tokenisation is exercised on the generated texts only; one regex lemma (slash syntax) is proved with rx2z3. '
+         'Choices are finite and solver-enumerated (exploration in nature).',
+    design='3/C07', technique=TECH)
+CHECKS['C10'] = dict(
+    text='Comment-history mechanics as an inductive step: from every comment history of bounded length (symbolic authors and '
+         'message kinds) the real handle_pull_request is evaluated three times in a row up to the clone, with the real Reactor, '
+         'command handlers, notify_user/_send_comment/find_comment and the live dont_repeat_if_in_history attributes: no message '
+         'twice in a row, a command executed by one evaluation is not executed by the next, the third evaluation posts nothing; '
+         'option state does not leak between jobs.',
+    note='Partial: _reset is a stub raising what the real one raises; convergence over repository states and independence from '
+         'earlier jobs beyond option defaults are not decided.',
+    design='3/C10', technique=TECH)
 CHECKS['C19'] = dict(
     text='(b) the real create_integration_pull_requests / get_or_create_pull_request / get_pull_request_from_list as an '
          'inductive step on a host with up to 2 (thorough 3) pull requests whose source, destination and status are symbolic: '
